@@ -1,14 +1,16 @@
 (* Extraction of the executable model and the spec oracles (ExtrOcamlBasic only). *)
 From Coq Require Import ZArith List.
 From Coq Require Extraction ExtrOcamlBasic.
-From WS Require Import Base.Res Base.Bytes Base.GenPrelude Spec.Utf8 Spec.Frame Proofs.FastOracle Gen.GenUtils Gen.GenAbnf
-  Model.Send.
+From WS Require Import Base.Res Base.Bytes Base.GenPrelude Spec.Utf8 Spec.Frame Spec.Legal Proofs.FastOracle Gen.GenUtils Gen.GenAbnf
+  Model.Send Model.Xport Model.Recv Model.Conn Model.Script Gen.GenCore.
 Extraction Language OCaml.
 Extraction "core_full.ml"
   exn_eqb is_ok Z.add Z.mul Z.div Z.modulo Z.opp Z.abs Z.of_nat Z.to_nat Z.eqb Z.ltb
   wf_utf8 utf8_encode
   decode_fast decode_all_fast encode_fast
+  frame_verdict seq_ok seq_next legal_seq reassemble per_fragment pongs_owed close_code
   validate_utf8 decode_step
   abnf_validate abnf_format is_valid_close_status parse_header length_need length_decode mask_need
   strict_shortage strict_continue strict_request strict_step strict_finish mask_bigint
-  format_frame ws_send_frame close_body.
+  format_frame ws_send_frame close_body
+  run_ops ws_init all_io recv_frame handle_frame.
